@@ -62,6 +62,7 @@ Proof.
   - apply do_hook_inv in H. destruct H as (sym0 & t & s2 & _ & _ & _ & _ & _ & _ & Hm & Hp).
     rewrite (Hbo _ _ (bank_pay_only _ _ _ _ _ Hp)), (Hbo _ _ (bank_mint_only _ _ _ _ Hm)). reflexivity.
   - apply do_upgrade_inv in H. subst s'. reflexivity.
+  - apply do_hook_multi_frame in H. apply H.
 Qed.
 
 Lemma step_registry s m : IdInv s -> registry (step s m) = registry s.
@@ -243,6 +244,15 @@ Proof.
     apply Z.eqb_eq in E. destruct (step_code_ok _ _ E) as (s1 & Ex & Hst). rewrite Hst in *.
     apply exec_inv in Ex. destruct Ex as [_ Ex]. simpl in Ex. apply do_upgrade_inv in Ex. subst s1.
     simpl. rewrite !eqb_refl. reflexivity.
+  - (* HookMulti *)
+    destruct (step_code s (HookMulti evs) =? 0) eqn:E; [|apply Hfail; first [assumption|reflexivity]].
+    replace (forallb _ (o_tokens (obs_of s cp))) with true; [reflexivity|]. symmetry.
+    apply forallb_forall. intros t Hin. apply (o_tokens_In s cp W I) in Hin.
+    destruct (t_contract t =? 0) eqn:Ec; [reflexivity|]. simpl. apply Z.eqb_neq in Ec.
+    assert (Ht : token_by_minunit s (t_minunit t) = Some t).
+    { unfold token_by_minunit, token_by_symbol. destruct (id_sym s I _ _ Hin) as [_ Hmu]. rewrite Hmu. assumption. }
+    destruct (conversion_step s (HookMulti evs) (t_minunit t) t R eq_refl Ht Ec) as [_ Heq].
+    rewrite (osupply_of _ _ W'), (osupply_of s cp W), !oerc20_total_of. apply Z.eqb_eq. exact Heq.
 Qed.
 
 (** ** the checker on the model's own trace *)
